@@ -14,6 +14,12 @@ import z3
 STR_T = z3.StringSort()
 
 
+INT_RANGES = {
+    "u8": (0, 2**8 - 1), "u16": (0, 2**16 - 1), "u32": (0, 2**32 - 1), "u64": (0, 2**64 - 1), "u128": (0, 2**128 - 1), "usize": (0, 2**64 - 1),
+    "i8": (-2**7, 2**7 - 1), "i16": (-2**15, 2**15 - 1), "i32": (-2**31, 2**31 - 1), "i64": (-2**63, 2**63 - 1), "i128": (-2**127, 2**127 - 1), "isize": (-2**63, 2**63 - 1),
+}
+
+
 def is_boolish(t):
     return t == "bool"
 
@@ -43,6 +49,7 @@ class Glob:
         self.CONN_STATE = z3.Int("CONN_STATE")
         self.AUTHENTICATED = z3.IntVal(enum_id("ConnectionState::Authenticated"))
         self.IN_TRANSACTION = z3.Bool("IN_TRANSACTION")
+        self.min_len = {}         # source name of a slice parameter -> minimal length (documented precondition)
         self.inline = []          # regexes of callee names that are evaluated by inlining their MIR
         self.inline_depth = 0
 
@@ -69,6 +76,7 @@ class Enc:
         self.back_edges = set()
         self.order = []
         self.arg_terms = {}
+        self.modelled_flags = set()
         self._prepare()
         self._run()
 
@@ -80,8 +88,15 @@ class Enc:
             return z3.Bool(name)
         if sort == "int":
             v = z3.Int(name)
-            if hint.startswith("len") or hint.startswith("u:"):
+            if hint.startswith("len"):
+                # slice / Vec lengths never exceed isize::MAX
+                self.extra.append(z3.And(v >= 0, v <= 2**63 - 1))
+            elif hint.startswith("u:"):
                 self.extra.append(v >= 0)
+            m = re.match(r"^(?:u:)?ty:(\w+):", hint)
+            if m and m.group(1) in INT_RANGES:
+                lo, hi = INT_RANGES[m.group(1)]
+                self.extra.append(z3.And(v >= lo, v <= hi))
             return v
         if sort == "str":
             return z3.String(name)
@@ -184,6 +199,10 @@ class Enc:
         m = re.match(r"^const (-?\d+)_(?:[iu](?:8|16|32|64|128|size))$", txt)
         if m:
             return z3.IntVal(int(m.group(1)))
+        m = re.match(r"^const ([iu](?:8|16|32|64|128|size))::(MIN|MAX)$", txt)
+        if m:
+            lo, hi = INT_RANGES[m.group(1)]
+            return z3.IntVal(lo if m.group(2) == "MIN" else hi)
         m = re.match(r"^const '(.)'$", txt)
         if m:
             return z3.IntVal(ord(m.group(1)))
@@ -237,7 +256,7 @@ class Enc:
                 ty = m.group(1).rsplit(": ", 1)[-1].rstrip(")") if ": " in m.group(1) else None
                 srt = self.sort_of_type(ty)
                 if srt:
-                    st[key] = self.fresh(srt, "place")
+                    st[key] = self.fresh(srt, "ty:%s:place" % (ty or "?"))
             return st.get(key)
         return None
 
@@ -325,7 +344,12 @@ class Enc:
             if len(ops) == 2 and mt:
                 a, b2 = self.operand(st, ops[0]), self.operand(st, ops[1])
                 if a is not None and b2 is not None and z3.is_int(a) and z3.is_int(b2):
-                    st["place:(%s.0: %s)" % (dest, mt.group(1))] = a + b2 if m.group(1) == "Add" else a - b2
+                    r = a + b2 if m.group(1) == "Add" else a - b2
+                    st["place:(%s.0: %s)" % (dest, mt.group(1))] = r
+                    if mt.group(1) in INT_RANGES:
+                        lo, hi = INT_RANGES[mt.group(1)]
+                        st["place:(%s.1: bool)" % dest] = z3.Or(r < lo, r > hi)
+                        self.modelled_flags.add("place:(%s.1: bool)" % dest)
             return None
         m = re.match(r"^discriminant\((.*)\)$", rhs)
         if m:
@@ -455,7 +479,7 @@ class Enc:
             srt = self.sort_of_type(self.ltype(l))
             if srt in ("bool", "int"):
                 # arbitrary value at the loop head, but ONE value for all reads in this iteration
-                st[l] = self.fresh(srt, ("u:" if (self.ltype(l) or "").startswith("u") else "") + "havoc_%s_bb%d" % (l, b))
+                st[l] = self.fresh(srt, "ty:%s:havoc_%s_bb%d" % ((self.ltype(l) or "?"), l, b))
             for k in [k for k in st if k.startswith("disc:") or k.startswith("place:")]:
                 if re.search(r"\b%s\b" % re.escape(l), k):
                     st.pop(k, None)
@@ -488,8 +512,15 @@ class Enc:
                         st[a] = self.bind[a]
                         self.arg_terms[a] = st[a]
                     elif srt:
-                        st[a] = self.fresh(srt, ("u:" if (self.ltype(a) or "").startswith("u") else "") + "arg" + a)
+                        st[a] = self.fresh(srt, "ty:%s:arg%s" % ((self.ltype(a) or "?"), a))
                         self.arg_terms[a] = st[a]
+            if b == 0 and self.glob.min_len:
+                for nm, mn in self.glob.min_len.items():
+                    pl = self.fn.debug.get(nm)
+                    if pl and re.match(r"^_\d+$", pl) and pl in self.fn.args:
+                        lv = self.fresh("int", "len_%s_param" % pl)
+                        self.extra.append(lv >= mn)
+                        st["len:" + pl] = lv
             self.val[b] = dict(st)
             for idx, (d, rhs) in enumerate(blk.stmts):
                 if d is None:
@@ -520,7 +551,7 @@ class Enc:
                 if v is None:
                     srt = self.sort_of_type(self.ltype(local))
                     # reference to something tracked keeps its value; otherwise fresh
-                    hint = ("u:" if (self.ltype(local) or "").startswith("u") else "") + "%s_bb%d_%d" % (local, b, idx)
+                    hint = "ty:%s:%s_bb%d_%d" % ((self.ltype(local) or "?"), local, b, idx)
                     v = self.fresh(srt, hint) if srt else None
                 if v is not None:
                     st[local] = v
@@ -545,10 +576,15 @@ class Enc:
                             self._pending_range = (dest, rng)
                         elif re.search(r"as Iterator>::next$", t["callee"]):
                             pv = self.fresh("int", "u:iter_bb%d" % b)
-                            self.extra.append(z3.And(pv >= rng[0], pv < rng[1]))
+                            # the yielded value exists only when next() returned Some: the facts
+                            # about it are guarded by the discriminant of the result (Some = 1)
+                            dv = self.fresh("int", "disc_iter_bb%d" % b)
+                            fact = z3.And(pv >= rng[0], pv < rng[1])
                             if len(rng) == 3:
-                                self.extra.append((pv - rng[0]) % rng[2] == 0)
+                                fact = z3.And(fact, (pv - rng[0]) % rng[2] == 0)
+                            self.extra.append(z3.Implies(dv == 1, fact))
                             self._pending_place = ("place:((%s as Some).0: usize)" % dest, pv)
+                            self._pending_disc = ("disc:" + dest, dv)
                 if isinstance(v, tuple) and dest and re.match(r"^_\d+$", dest):
                     self._kill(st, dest)
                     st["opt:" + dest] = v
@@ -558,7 +594,9 @@ class Enc:
                     self._kill(st, dest)
                     srt = self.sort_of_type(self.ltype(dest))
                     if v is None and srt:
-                        v = self.fresh(srt, "call_bb%d" % b)
+                        v = self.fresh(srt, "ty:%s:call_bb%d" % ((self.ltype(dest) or "?"), b))
+                        if srt == "int" and re.search(r"::(len|count|capacity)$", t["callee"]):
+                            self.extra.append(z3.And(v >= 0, v <= 2**63 - 1))
                     if v is not None:
                         st[dest] = v
                         self.site[b] = v
@@ -574,6 +612,9 @@ class Enc:
                 if getattr(self, "_pending_place", None):
                     st[self._pending_place[0]] = self._pending_place[1]
                     self._pending_place = None
+                if getattr(self, "_pending_disc", None):
+                    st[self._pending_disc[0]] = self._pending_disc[1]
+                    self._pending_disc = None
                 # arguments passed by &mut may be modified: kill them
                 for x in t["args"]:
                     mm = re.match(r"^(?:move |copy )?(_\d+)$", x.strip())
